@@ -57,6 +57,25 @@ PROPS["C15"] = {
     "trusted": ["tm-db MemDB / tendermint iavl as the base store", "Go's sync.Mutex"],
 }
 
+RM_T1 = [{"family": "rm", "model": "rm", "quick_n": 6000, "thorough_n": 400000, "corpus": "rm", "reset_token": "new"}]
+RM_RULE = ("histories of set/delete over 1-4 IAVL substores and a transient store on the real rootmulti.Store, with commits, reopenings, "
+           "LoadVersion at every kind of version (retained / pruned / future / 0), crash injection after each possible number of batch "
+           "writes of a commit followed by reopen and replay, /key queries with and without proofs at every kind of height; pruning "
+           "options: the three shipped ones plus (1,0) (2,3) (1,2) (3,0) (0,2) (5,4); a shadow instance that never crashes provides the "
+           "reference hashes; non-trivial = distinct (op, outcome, pruning option / crash point) on a non-setup op")
+for _p, _req in (("C12", ["retained_closed_form", "reopen_latest_content", "commit_version_succ"]),
+                 ("C13", ["crash_atomic", "replay_same", "crash_counterexample_keepRecent0"]),
+                 ("C14", ["query_returns_committed", "pruned_or_future_empty", "multistore_proof_sound"])):
+    PROPS[_p] = {
+        "lean_modules": ["Posmint.Props." + _p], "namespaces": ["Posmint.Props." + _p],
+        "required_theorems": ["Posmint.Props.%s.%s" % (_p, t) for t in _req],
+        "t1": RM_T1, "rule": RM_RULE,
+        "assumptions": ["database batches are atomic and durable once written (tm-db)",
+                        "tendermint/iavl behaves like a versioned map with idempotent re-save of an identical version",
+                        "C14: hash functions injective on the encodings involved; IAVL range proofs sound (library); proofs are checked by the harness with the real ProofRuntime against every height's app hash (validation, not proof)"],
+        "trusted": ["tendermint/iavl, tm-db, tendermint/crypto/merkle"],
+    }
+
 # development-only entry: the chain family with all monitors, no Lean module (not in MANIFEST)
 PROPS["XCHAIN"] = {
     "lean_modules": [], "namespaces": [],
@@ -67,6 +86,22 @@ PROPS["XCHAIN"] = {
 NOT_APPLICABLE = {}
 
 MANIFEST_TEXT = {
+    "C12": {"text": "Lean theorems over the multistore model: Commit advances the version by one; reopening yields the committed content; for every "
+                    "history, store count and (keepRecent, keepEvery) a version is loadable iff the closed form v = L or v >= L - keepRecent or keepEvery | v "
+                    "holds and then shows exactly what was committed at v, otherwise an error; transient stores are empty after commit. Tied to "
+                    "store/rootmulti + store/iavl by differential runs on the real stores over a MemDB.",
+            "note": "IAVL internals trusted (versioned map); model tied by T1", "technique": "Lean 4 proof over executable model + differential correspondence"},
+    "C13": {"text": "Lean theorem over the batch-level model of Commit: for every consistent store, every visiting order of the substores and every prefix "
+                    "of the batch list, reopening shows the complete previous or the complete new version, and replaying the block reproduces the "
+                    "uninterrupted result; proved under the hypothesis that pruning does not delete the previous version (keepRecent >= 1), with a "
+                    "proved counterexample for keepRecent = 0. Tied by crash injection at every batch write on the real store. Two recorded known findings.",
+            "note": "atomic DB batches assumed; IAVL trusted; keepRecent = 0 and first-commit crashes are recorded known findings",
+            "technique": "Lean 4 proof over batch-prefix model + crash-injection correspondence"},
+    "C14": {"text": "Lean theorems: a /key query at a retained height returns the value committed there independent of uncommitted writes and later "
+                    "commits; pruned/future heights give no value and no proof; the multistore proof operator is sound over injective abstract hashes "
+                    "(for proofs without duplicate store names). Partial: IAVL range-proof soundness and hash injectivity are assumptions; real proofs "
+                    "are run through the ProofRuntime against every height's hash by the harness.",
+            "note": "IAVL proofs and hash injectivity assumed", "technique": "Lean 4 proof over executable model + differential correspondence"},
     "C15": {
         "text": "Lean refinement theorems for the cachekv model (the code's own structures: cache map, unsorted set, sorted list, dirtyItems merge, "
                 "memIterator, and the merge iterator as the code's skip/next state machine): Get/Has/Set/Delete refine the overlay view at any "
